@@ -28,7 +28,8 @@ def check(tier, seed):
 replay = R.replay
 
 MANIFEST = {
-    "technique": "Coq action-system model + differential correspondence and delivery monitor (exactly-once, owner, order, well-formed watermarks) on the real streamRouting",
+    "technique": "Coq invariant proofs over all action sequences of the routing transition system (exact placement of every received task, source order, fresh increasing ids) + "
+                 "differential correspondence and delivery monitor (exactly-once, owner, order, well-formed watermarks) on the real streamRouting",
     "text": "Same model and correspondence as C01. Proved for every fault-free action sequence (corollaries of the invariant of Routing/Inv.v): every task a receiver has read is in the sequence "
             "handed to its owner's sender or in the pending group for that owner - never elsewhere, never dropped (C02_received_tasks_reach_their_owner); exactly once and in order as a list equality between what each target's "
             "sender has been handed plus what is pending for it and the received tasks it owns (C02_exact_placement, theories/Routing/Place.v) - and in source order, no watermark overtaking a "
